@@ -12,7 +12,10 @@ MODULES = ['Netpoll.Props.C16']
 MANIFEST = dict(
     text='Lean 4 theorems: for every source/sink script and every sequence of Reader/Writer calls the adapter model (zcReader, zcWriter, ioReader, ioWriter over the C01 spec queue) '
          'delivers exactly the source stream once and in order, surfaces the source error, and hands the sink exactly the flushed stream across Flushes. '
-         'The model is tied to nocopy_readwriter.go by a differential run on scripted io.Reader/io.Writer behaviours (short, zero-byte, negative, data+error, short writes).',
+         'The model is tied to nocopy_readwriter.go by a differential run on scripted io.Reader/io.Writer behaviours (short, zero-byte, negative, data+error, short writes); '
+         'a stream oracle judges the replies of all four adapters (zcReader, zcWriter, NewIOReader / NewIOWriter over a LinkBuffer, NewIOWriter over NewWriter over a short-writing sink). '
+         'The caller of an io.Writer reuses (overwrites) its slice as soon as Write has returned, as the io.Writer contract allows; every zero-copy result of the reader adapter is kept and re-compared after every later call '
+         'until Release, with the harness allocator poisoning freed blocks (long streams read piecewise with rare Release included).',
     note='Rests on the C01 refinement (LinkBuffer behaves as the spec queue inside Contract) and on its tie. Correspondence is sampling. '
          'Source positions are keyed pseudo-random bytes so reordering/duplication is visible.',
     technique='Lean 4 invariant proofs over an adapter model + differential correspondence with scripted io.Reader/io.Writer', design='§6 C16')
@@ -67,7 +70,32 @@ def oracle(seq_ops, impl):
             if ln > len(submitted) or int(h) != fnv(submitted[:ln]): return i, 'sink content is not a prefix of the flushed stream'
             if int(f['L']) != len(submitted) - ln: return i, 'flushed-but-unsent count wrong'
             if int(f['M']) != len(pending): return i, 'MallocLen wrong'
-            if opn == 'flush' and res == 'ok' and f['left'] == '0' and False: pass
+        elif kind in ('iow', 'ior'):
+            # NewIOWriter / NewIOReader over a LinkBuffer: what went in through one side comes out of the other, once, in order.
+            # The io.Writer's caller reuses its slice as soon as Write has returned (harness: callerWrite), as io.Copy does.
+            opn = t[2]
+            if opn in ('write', 'feed'):
+                n = int(t[3])
+                if opn == 'write':
+                    if not res.startswith('ok n:'): return None      # a Write that reports an error: nothing more is claimed
+                    if int(res[5:]) != n: return i, 'Write(%d bytes) returned n=%s without an error' % (n, res[5:])
+                submitted += [gen_byte(int(t[4]), k) for k in range(n)]
+            elif opn in ('drain', 'read') and res.startswith('ok b:'):
+                _, ln, h = res.split()[1].split(':'); ln = int(ln)
+                if ln > len(submitted) - dc or int(h) != fnv(submitted[dc:dc + ln]):
+                    return i, ('bytes read back from the wrapped Writer are not the next %d bytes written through NewIOWriter (stream position %d)' if kind == 'iow' else
+                               'bytes returned by NewIOReader.Read are not the next %d bytes of the wrapped Reader (stream position %d)') % (ln, dc)
+                dc += ln
+            if int(f['L']) != len(submitted) - dc: return i, 'written (%d) != read back (%d) + buffered (%s)' % (len(submitted), dc, f['L'])
+        elif kind == 'iowz':
+            # NewIOWriter over NewWriter over a scripted sink: every Write flushes, so at any time the sink holds a prefix of
+            # everything written so far and the rest is still buffered (it goes out with a later Write / Flush)
+            opn = t[2]
+            if opn == 'write': submitted += [gen_byte(int(t[4]), k) for k in range(int(t[3]))]
+            ln, h = f['sunk'].split(':'); ln = int(ln)
+            if ln > len(submitted) or int(h) != fnv(submitted[:ln]): return i, 'sink content is not a prefix of the stream written through NewIOWriter'
+            if int(f['L']) != len(submitted) - ln: return i, 'written (%d) != sunk (%d) + buffered (%s)' % (len(submitted), ln, f['L'])
+            if int(f['M']) != 0: return i, 'pending bytes left in the writer buffer after Write/Flush'
     return None
 
 def run_shard(binary, wd, seed, seqs, nops):
@@ -150,7 +178,8 @@ def run(rep):
         problems += r['problems']; finals |= r['finals']; n += r['seqs']
         for k, v in r['hist'].items(): hist[k] = hist.get(k, 0) + v
     rep.cov.update(evaluations=n, distinct_nontrivial=len(finals),
-                   rule='one adapter per sequence (zcReader / zcWriter / ioReader / ioWriter) behind a scripted source or sink (per-call counts 0..>4KB, negative, data with error, short writes); '
+                   rule='one adapter per sequence (zcReader / zcWriter / ioReader / ioWriter over a LinkBuffer / ioWriter over zcWriter) behind a scripted source or sink (per-call counts 0..>4KB, negative, data with error, short writes; '
+                        'one reader sequence in four over a long stream with rare Release); the io.Writer caller overwrites its slice after every Write; zero-copy results of the reader are re-compared until Release (poisoning allocator); '
                         'random Reader/Writer calls; every reply compared with the Lean adapter model and judged by a stream oracle; distinct_nontrivial = distinct final reply lines',
                    samples=results[0]['samples'], op_histogram=hist, traces_validated_against_impl=n)
     rep.assumptions += ['C01 refinement: inside Contract a LinkBuffer behaves as the spec queue (checked by ./check C01)',
